@@ -64,13 +64,12 @@ PHI = {"pi/2": np.pi / 2, "-pi/2": -np.pi / 2, "pi/4": np.pi / 4, "0.9pi": 0.9 *
 
 
 def setup(tier, seed):
-    """parent process, before the fork: the first run() imports ray (several seconds); do it once"""
-    import wannierberri as wb
-    from wannierberri.calculators import static
-    from wbmc import berry_harness as bh, models2d
-    s = models2d.bundled("Haldane_tbm")
-    with bh.case_tmpdir() as tmp:
-        bh.tmp_run(s, wb.Grid(s, NK=[4, 4, 1]), {"ahc": static.AHC(Efermi=np.array([0.0, 0.1]), print_comment=False)}, tmp)
+    """parent process, before the fork: pay the one-time costs once instead of once per worker -- the first run()
+    imports ray (~1.5 s), the first tetrahedron call compiles the numba kernels (~7 s), the first evaluate_k ~2 s"""
+    warm = ["zoo", 2, "sc", "shell1", "generic"]
+    run_sum_k({"kind": "sum_k", "sys": warm}, seed)
+    for tetra in (False, True):
+        run_ahc_top({"kind": "ahc_top", "sys": warm, "NK": [2, 2, 2], "tetra": tetra}, seed)
 
 
 def cases(tier, seed):
